@@ -23,6 +23,8 @@ CONSTANTS
   PruneKeepsEqual = TRUE
   PartialCommit = FALSE
   UpdateTouchesTruth = FALSE
+  TRank <- RankT
+  LastMergeWins = FALSE
 INVARIANT OneRecordPerTasking
 INVARIANT NoRecordWithoutTasking
 INVARIANT PointingReflectsTasking
